@@ -155,10 +155,9 @@ class SynthDef(metaclass=MetaSynthDef):
                 self._build_ugen_graph(func, rates, prepend)
                 self._finish_build()
                 self._func = func
+            finally:
+                # Also for non Exception errors (e.g. KeyboardInterrupt).
                 _libsc3.main._current_synthdef = None
-            except Exception:
-                _libsc3.main._current_synthdef = None
-                raise
 
     @property
     def name(self):
